@@ -55,9 +55,15 @@ def strip_canon(c):
 
 
 def sig(kind, d):
+    import re
     path = d.partition(": ")[0]
-    attrs = [p.split("[")[0] for p in path.split("/") if p and not p.startswith("http")]
+    attrs = [p.split("[")[0] for p in path.split("/") if re.fullmatch(r"[A-Za-z_]+(\[\d+\])*", p)]
     return f"C18:{kind}:{'/'.join(attrs[-2:])}"
+
+
+def snake_upper(cls):
+    import re
+    return re.sub(r"(?<=[a-z0-9])(?=[A-Z])", "_", cls).upper()
 
 
 def run(chk):
@@ -104,6 +110,21 @@ def run(chk):
                         chk.fail(sig("json-reader", d),
                                  f"stripped JSON reader ({'failsafe' if fs_ else 'strict'}) on the {name} document of a {cls}: {d}",
                                  {"class": cls, "document": doc})
+            # the stripped XML reader on the single element (reaches classes that only occur below detachable parts)
+            from basyx.aas.adapter.xml import object_to_xml_element, read_aas_xml_element, XMLConstructables
+            from lxml import etree
+            xml_bytes = etree.tostring(object_to_xml_element(obj))
+            construct = getattr(XMLConstructables, snake_upper(cls))
+            for fs_ in (True, False):
+                try:
+                    o3 = read_aas_xml_element(io.BytesIO(xml_bytes), construct, failsafe=fs_, stripped=True)
+                    d = aasgen.diff(strip_canon(c03.strip_type(aasgen.canon(obj))), c03.strip_type(aasgen.canon(o3)))
+                except Exception as e:
+                    d = f"/: raised {type(e).__name__}: {str(e)[:120]}"
+                if d:
+                    chk.fail(sig("xml-element-reader", d),
+                             f"stripped XML element reader ({'failsafe' if fs_ else 'strict'}) on a {cls}: {d}",
+                             {"class": cls, "xml": xml_bytes.decode()[:4000]})
             t, _ = c03.coq_case(obj, True)
             enc_terms.append(t)
             falsy = set()
